@@ -259,7 +259,9 @@ def t3(P, E, out):
     t0 = time.time()
     bad = []
     n = 0
-    for nb, anim, has_loop in itertools.product((0, 1, 2, 3), (False, True), (True, False)):
+    for nb, anim, has_loop, anim_in_body in itertools.product((0, 1, 2, 3), (False, True), (True, False), (False, True)):
+        if anim_in_body and not (anim and has_loop):
+            continue
         lines = ["mon = SerialMonitor(9600)"]
         pins = [4, 7, 8][:nb]
         for k, pin in enumerate(pins):
@@ -267,7 +269,8 @@ def t3(P, E, out):
         if anim:
             lines += ["lcd = LCD(rs=22, en=23, d4=24, d5=25, d6=26, d7=27)", "lcd.animate('scroll', 0, 'hello world', speed_ms=100)"]
         if has_loop:
-            lines += ["while True:"] + [f"    mon.write(b{k}.is_pressed())" for k in range(nb)] + ["    mon.write('user')", "    sleep(5)"]
+            lines += ["while True:"] + [f"    mon.write(b{k}.is_pressed())" for k in range(nb)] + ["    mon.write('user')"] + (
+                ["    lcd.animate('blink', 1, 'again', speed_ms=100)"] if anim_in_body else []) + ["    sleep(5)"]
         src = IMPORTS + "\n".join(lines) + "\n"
         n += 1
         try:
